@@ -17,8 +17,8 @@
    C02_read_lookup_is_replay the (series,timestamp,field)-map form, C02_sort_dedup_code_shaped ties the code-shaped
    ColumnSortHelper.Sort model to the replay, C02_reorganisation_invisible is the corollary for flush / compaction /
    merges / reopen. *)
-From Coq Require Import ZArith List Bool.
-From OG Require Import C02.Model C02.Proofs C02.Corr C02.Refine C02.FileCursor C02.LayoutOk C02.CorrAgg.
+From Coq Require Import ZArith List Bool Sorted.
+From OG Require Import C02.Model C02.Proofs C02.Corr C02.Refine C02.FileCursor C02.LayoutOk C02.CorrAgg C02.TagSet.
 Import ListNotations.
 Open Scope Z_scope.
 
@@ -148,6 +148,16 @@ Theorem C02_filecursor_aggregate_is_lww : forall h o, ops_allowed h = true ->
                      (if a_desc o then rev (sel (a_s o) (lww_table (writes_of h))) else sel (a_s o) (lww_table (writes_of h)))).
 Proof. exact fc_agg_is_lww. Qed.
 Print Assumptions C02_filecursor_aggregate_is_lww.
+
+(* the merged stream of a tag set holding several series (tagSetCursor's heap: by time, equal times by series key;
+   descending reversed): sorted by (time, series), and restricted to any one series it is exactly that series' read - hence
+   (C02_read_is_lww) the shaped last-write-wins rows of the series *)
+Theorem C02_tagset_stream_sorted : forall nser L tmin tmax fs, StronglySorted tle (flat_stream nser L tmin tmax fs true).
+Proof. exact flat_stream_sorted. Qed.
+Theorem C02_tagset_stream_per_series : forall h, ops_allowed h = true -> forall nser s tmin tmax fs asc, In s (zrange nser) ->
+  filter (ser s) (flat_stream nser (run false h) tmin tmax fs asc) = read_layout (run false h) s tmin tmax fs asc.
+Proof. exact flat_stream_series. Qed.
+Print Assumptions C02_tagset_stream_per_series.
 
 (* THE LAYOUT PREDICATE IS AN INVARIANT, not an assumption: every op allowed by the planner / store predicate preserves
    it (sequences ascending; ordered files per-series time-increasing by position). The flush split at the flush time,
